@@ -71,6 +71,13 @@ pub struct Scenario {
     /// A second, disjoint workspace folder rooted at `fb/` (its files are in `disk` under that prefix).
     #[serde(default)]
     pub folder_b: bool,
+    /// version number a document gets when it is opened (editors restart it on every open)
+    #[serde(default = "one")]
+    pub version_base: i32,
+}
+
+fn one() -> i32 {
+    1
 }
 
 pub struct World {
@@ -447,6 +454,7 @@ pub struct Exec<'w> {
     /// the disk changed behind the server's back and no notification has reached it since:
     /// its view may legitimately lag, so nothing is compared until one has
     pub external_pending: bool,
+    pub version_base: i32,
 }
 
 fn legal_path(p: &str) -> bool {
@@ -469,6 +477,7 @@ impl<'w> Exec<'w> {
         Exec {
             world,
             external_pending: false,
+            version_base: scn.version_base,
             peer: Peer::new2(world, true, scn.folder_b),
             client,
             stats: Stats::default(),
@@ -675,8 +684,8 @@ impl<'w> Exec<'w> {
                     } else if self.client.disk.get(path) != Some(text) {
                         self.stats.probe("open_with_unsaved_text");
                     }
-                    self.client.open.insert(path.clone(), (text.clone(), 1));
-                    self.peer.did_open(path, text, 1);
+                    self.client.open.insert(path.clone(), (text.clone(), self.version_base));
+                    self.peer.did_open(path, text, self.version_base);
                 }
             }
             Ev::Change { path, changes } if !changes_legal(self.client.open.get(path).map(|x| x.0.as_str()), changes) => {
@@ -687,7 +696,7 @@ impl<'w> Exec<'w> {
             }
             Ev::Change { path, changes } => {
                 if let Some((buf, ver)) = self.client.open.get_mut(path) {
-                    *ver += 1;
+                    *ver = ver.saturating_add(1);
                     let mut arr = Vec::new();
                     for c in changes {
                         // probes on the text this change applies to
